@@ -314,7 +314,11 @@ def move_next_char(text: str | bytes, start_offs: int, end_offs: int) -> int:
         if o > end_offs:
             return start_offs + 1
         return o
-    if _byte_encoding == "wide" and within_double_byte(text, start_offs, start_offs) == 1:
+    if (
+        _byte_encoding == "wide"
+        and start_offs + 1 < end_offs
+        and within_double_byte(text, start_offs, start_offs + 1) == 2
+    ):
         return start_offs + 2
     return start_offs + 1
 
